@@ -276,26 +276,37 @@ def smt_job(j):
         sigs = {}
 
         def record(what, optimizer, detail):
+            debug = optimizer.endswith("+debug")
+            optimizer = optimizer.split("+")[0]
             sig = {"dir": "export", "what": what, "optimizer": optimizer}
+            skw = {"optimizer": optimizer}
+            if debug:
+                sig["debug"] = True
+                skw["debug"] = True
             k = json.dumps(sig, sort_keys=True)
             e = sigs.setdefault(k, [0, None, sig])
             e[0] += 1
             if e[1] is None:
-                e[1] = {"program": program, "what": what, "detail": detail, "expect": "smt2", "solver": {"optimizer": optimizer}}
+                e[1] = {"program": program, "what": what, "detail": detail, "expect": "smt2", "solver": skw}
 
-        for optimizer in (("incremental", "optimize") if has_obj else ("incremental",)):
+        # (the debug solver tracks its assertions: what it exports must still be the system it checks)
+        for optimizer in (("incremental", "optimize", "incremental+debug") if has_obj else ("incremental", "incremental+debug")):
             built = dsl.build(program)
-            kw = {"optimizer": optimizer}
-            if optimizer == "optimize" and sum(1 for d in program["decls"] if d["k"] == "new" and d["cls"].startswith("Objective")) > 1:
+            kw = {"optimizer": optimizer.split("+")[0]}
+            if optimizer.endswith("+debug"):
+                kw["debug"] = True
+            if kw["optimizer"] == "optimize" and sum(1 for d in program["decls"] if d["k"] == "new" and d["cls"].startswith("Objective")) > 1:
                 kw["optimize_priority"] = "lex"
-            with boot.quiet():
-                solver = ps.SchedulingSolver(problem=built.pb, max_time=30, **kw)
+            with boot.no_fd2():
+                with boot.quiet():
+                    solver = ps.SchedulingSolver(problem=built.pb, max_time=30, **kw)
             fd, path = tempfile.mkstemp(suffix=".smt2")
             os.close(fd)
             try:
                 try:
-                    with boot.quiet():
-                        solver.export_to_smt2(path)
+                    with boot.no_fd2():
+                        with boot.quiet():
+                            solver.export_to_smt2(path)
                 except Exception as e:
                     record("smt2:raised", optimizer, f"{type(e).__name__}: {e}"[:150])
                     continue
@@ -309,10 +320,20 @@ def smt_job(j):
                 os.unlink(path)
             prims = ex.primaries(built)
             st1, st2 = ex.Stats(), ex.Stats()
+            if kw.get("debug"):
+                z3.set_option("verbose", 0)  # (the debug solver switches z3's own trace on, process-wide)
             live = {ex.leaf_key(l) for l in ex.explore(solver._solver, prims, st1)}
             s2 = z3.Solver()
             s2.add(parsed)
-            exported = {ex.leaf_key(l) for l in ex.explore(s2, prims, st2)}
+            try:
+                # an export that denotes the live system is refuted on the same prefixes: its exploration costs what
+                # the live one costs; one that prunes nothing is cut off and reported
+                exported = {ex.leaf_key(l) for l in ex.explore(s2, prims, st2, max_checks=4 * st1.checks + 2000)}
+            except ex.BudgetExceeded:
+                res["checks"] += st1.checks + st2.checks
+                record("smt2:denotes-a-different-constraint-system", optimizer,
+                       f"live admits {len(live)} leaves after {st1.checks} checks; the export still admits prefixes after {st2.checks} checks")
+                continue
             res["checks"] += st1.checks + st2.checks
             res["leaves"] += len(live)
             if live != exported:
@@ -393,7 +414,7 @@ def roundtrip_job(case):
 def replay(inst):
     if inst.get("expect") == "smt2":
         r = smt_job({"program": inst["program"], "family": "replay"})
-        bad = [v for v in r.get("viol", []) if v["sig"]["what"] == inst["what"]]
+        bad = [v for v in r.get("viol", []) if v["sig"]["what"] == inst["what"] and bool(v["sig"].get("debug")) == bool((inst.get("solver") or {}).get("debug"))]
         print(json.dumps({"violation": inst["what"] if bad else None, "detail": [v["instance"]["detail"] for v in bad][:1], "error": r.get("error")}))
         return 1 if bad else 0
     if inst.get("expect") == "roundtrip":
@@ -417,7 +438,7 @@ def confirm(inst):
                               f"pb = ps.SchedulingProblem(name='rt', horizon=10)\nobj = ps.{cls}(**{kw!r})\njs = obj.to_json()\nprint(js)\n")
     elif inst.get("expect") == "smt2":
         inst["standalone"] = ('"""Stand-alone replay generated by /verif.\n' + note + '\n"""\n' + dsl.gen_source(inst["program"])
-                              + f"solver = ps.SchedulingSolver(problem=pb, optimizer={inst['solver']['optimizer']!r})\nsolver.export_to_smt2('/tmp/verif_export.smt2')\n"
+                              + f"solver = ps.SchedulingSolver(problem=pb, **{inst['solver']!r})\nsolver.export_to_smt2('/tmp/verif_export.smt2')\n"
                               + "print(z3.parse_smt2_file('/tmp/verif_export.smt2'))\n")
     else:
         from psmc import replay as rp
